@@ -387,7 +387,7 @@ fn is_prefix_result(pre: &[u8], units: &[String], now: &[u8]) -> bool {
 }
 
 /// All invariants of one step, in fixed order. Returns the first violation.
-fn check_step(c: &Ctx<'_>, stats: &mut RunStats, models_fix: &mut Option<Option<Model>>) -> Option<Violation> {
+fn check_step(c: &Ctx<'_>, stats: &mut RunStats, models_fix: &mut Option<Option<Model>>, known_orphans: &mut std::collections::BTreeSet<usize>) -> Option<Violation> {
     let t = c.st.slot;
     let op = &c.st.op;
     let fault = c.fault_fired();
@@ -459,7 +459,9 @@ fn check_step(c: &Ctx<'_>, stats: &mut RunStats, models_fix: &mut Option<Option<
         }
         let live = heap::with(|h| h.live_blocks());
         for b in &live {
-            if !per_block.contains_key(&b.id) {
+            // (an orphan already reported at an earlier step of a run that went on is not re-reported
+            // under the name of every later operation)
+            if !per_block.contains_key(&b.id) && known_orphans.insert(b.id) {
                 return Some(c.v(
                     c.ctx_tags(&["C03"]),
                     "leaked_block",
@@ -1122,6 +1124,7 @@ pub fn run_case(slots_n: usize, heap_cfg: &super::heapcfg::HeapCfg, fail_run_req
     let mut idx = 0usize;
     // blocks on which some handle was shortened while the buffer was shared (stale bytes behind it)
     let mut stale_blocks = std::collections::BTreeSet::new();
+    let mut known_orphans = std::collections::BTreeSet::new();
     while let Some(mut st) = src.next(&w.models) {
         if st.slot >= slots_n {
             st.slot %= slots_n;
@@ -1158,7 +1161,7 @@ pub fn run_case(slots_n: usize, heap_cfg: &super::heapcfg::HeapCfg, fail_run_req
         }
         probes(&ctx, &mut stats, &mut stale_blocks);
         let mut fix = None;
-        let mut v = check_step(&ctx, &mut stats, &mut fix);
+        let mut v = check_step(&ctx, &mut stats, &mut fix, &mut known_orphans);
         if let Some(m) = fix {
             w.models[st.slot] = m;
         }
